@@ -19,6 +19,9 @@
 (*   S a   derive a lazily from incomplete inputs (only if Unset) -> Stale *)
 (*   X a   reset a                             -> Unset                    *)
 (*   Z a   overwrite a with a value other than the definition's -> Stale   *)
+(*   Y a   the definition changed under a: if a is not Unset   -> Stale    *)
+(*   V a deps  derive a from deps: Def if all deps are Def, else Stale     *)
+(*   E t   the call re-defines aspect t of the object (defn' = defn + t)   *)
 (*   W a   write an output attribute (no status) / P a  peek (no effect)   *)
 (*   B t   the call is broken at this point in every state (pseudo attr t); *)
 (*         the steps after it say what the call does once that is repaired *)
@@ -46,12 +49,14 @@ CONSTANTS Kinds,       \* object kinds explored
           MaxLen,      \* bound on the number of calls of a behaviour
           Deviations   \* names of the deviations switched on ({} = the literal property)
 
-VARIABLES kind, derived, ckey, n, last
-vars == <<kind, derived, ckey, n, last>>
+VARIABLES kind, derived, ckey, defn, n, last
+vars == <<kind, derived, ckey, defn, n, last>>
+(* defn: the redefinitions (tags) applied to the object since it was created; the reference of a call *)
+(* is the same call on a fresh object to which the same redefinitions were applied first             *)
 
-AllKinds == {"Plate", "CPanel", "KPanel", "Assembly", "BayPlain", "BayBeta", "BayB1", "BayB1b",
+AllKinds == {"Plate", "PlateRedef", "CPanel", "KPanel", "Assembly", "BayPlain", "BayBeta", "BayB1", "BayB1b",
              "BayB2", "BayT2", "Cyl", "Cone"}
-Class(k) == IF k \in {"Plate", "CPanel", "KPanel"} THEN "Panel"
+Class(k) == IF k \in {"Plate", "PlateRedef", "CPanel", "KPanel"} THEN "Panel"
             ELSE IF k = "Assembly" THEN "Assembly"
             ELSE IF k \in {"Cyl", "Cone"} THEN "ConeCyl" ELSE "Bay"
 
@@ -62,6 +67,9 @@ StL(ro, a) == <<"L", <<ro, a>>>>
 StS(ro, a) == <<"S", <<ro, a>>>>
 StX(ro, a) == <<"X", <<ro, a>>>>
 StZ(ro, a) == <<"Z", <<ro, a>>>>
+StY(ro, a) == <<"Y", <<ro, a>>>>
+StV(ro, a, deps) == <<"V", <<ro, a>>, deps>>
+StE(t) == <<"E", <<"", t>>>>
 StW(ro, a) == <<"W", <<ro, a>>>>
 StP(ro, a) == <<"P", <<ro, a>>>>
 StB(t)     == <<"B", <<"", t>>>>
@@ -81,7 +89,8 @@ PRebuild(ro) == <<StP(ro, "r"), StL(ro, "model"), StL(ro, "laminaprops"), StL(ro
 PGetSize(ro) == <<StR(ro, "model"), StD(ro, "size")>>                                   \* :259-261
 PSize(ro, sized) == IF sized THEN <<>> ELSE PGetSize(ro)
 PGeom(ro) == <<StD(ro, "alpharad"), StL(ro, "r")>>                                      \* :376-378 (r: None -> 0.)
-PLam(ro)  == <<StR(ro, "plyts"), StR(ro, "laminaprops"), StD(ro, "lam"), StD(ro, "F")>>      \* :380-385
+PLam(ro)  == <<StR(ro, "plyts"), StR(ro, "laminaprops"),
+               StV(ro, "lam", {<<ro, "plyts">>, <<ro, "laminaprops">>}), StV(ro, "F", {<<ro, "lam">>})>>   \* :380-385
 PK0(ro, sized)  == PRebuild(ro) \o PSize(ro, sized) \o <<StR(ro, "model")>> \o PGeom(ro) \o PLam(ro)
                    \o <<StW(ro, "k0")>>                                                 \* calc_k0 :365-435
 PK0c(ro, sized) == PRebuild(ro) \o PSize(ro, sized) \o <<StR(ro, "model")>> \o PGeom(ro) \o PLam(ro)
@@ -104,8 +113,9 @@ PStress(ro) == PStrain(ro) \o <<StR(ro, "F")>>                                  
 PPlot(ro)   == StPs(ro, <<"u", "v", "w", "phix", "phiy">>) \o PUvw(ro)                  \* plot :1391-1402, 1506-1515
 AnW == StWs("an", <<"line_search", "kT_initial_state", "compute_every_n", "increments", "cs",
                   "last_analysis", "maxInc">>)
-PLb(ro)   == PK0(ro, FALSE) \o PKG0(ro, FALSE) \o StWs(ro, <<"eigvals", "eigvecs">>)
-             \o <<StW("an", "last_analysis")>>                                          \* lb :674-733
+PLbAn(ro, an) == PK0(ro, FALSE) \o PKG0(ro, FALSE) \o StWs(ro, <<"eigvals", "eigvecs">>)
+                 \o <<StW(an, "last_analysis")>>                                       \* lb :674-733
+PLb(ro)   == PLbAn(ro, "an")
 PFreq(ro) == PK0(ro, FALSE) \o PKM(ro, FALSE) \o StWs(ro, <<"eigvals", "eigvecs">>)
              \o <<StW("an", "last_analysis")>>                                          \* freq :792-925
 PStatic(ro) == PRebuild(ro) \o AnW \o PFext(ro) \o PK0(ro, FALSE) \o <<StW(ro, "increments")>>    \* static :1275-1301
@@ -131,9 +141,15 @@ PanelScript(m) ==
       [] m = "strain"     -> PStrain("")
       [] m = "stress"     -> PStress("")
       [] m = "plot"       -> PPlot("")
+      \* re-definitions between evaluation calls (kind PlateRedef): a constant pre-load, and ply thickness + material
+      [] m = "redef_preload" -> <<StE("preload")>>                       \* Nxx_cte is read by calc_k0 directly (:412-422)
+      [] m = "redef_lam"  -> <<StE("lam"), StY("", "plyts"), StY("", "laminaprops"), StY("", "lam"), StY("", "F")>>
+                             \* plyt / laminaprop changed: the per-ply lists are only built when empty (:234-242)
 
 KPanelMethods == {"calc_k0", "calc_kG0", "calc_kM", "calc_fext", "lb", "lb_dense", "freq",
                   "freq_dense", "static", "uvw", "plot"}
+RedefMethods == {"calc_k0", "calc_k0_c", "calc_kG0", "calc_kG0_c", "calc_kT_c", "calc_kM", "lb_dense", "freq_dense",
+                 "static", "stress", "redef_preload", "redef_lam"}
 PanelMethods == KPanelMethods \cup {"calc_k0_c", "calc_kG0_c", "calc_kT_c", "calc_kA", "calc_cA",
                                     "calc_fint", "static_NL", "strain", "stress"}
 
@@ -160,10 +176,12 @@ AssemblyScript(m) ==
       [] m = "get_k0_conn"     -> AConn("self")
       [] m = "get_k0_conn_arg" -> AConn("arg")
       [] m \in {"uvw", "plot"} -> <<StR("p1", "model"), StR("p2", "model")>>              \* :352-369
+      [] m = "p1_lb_dense" -> PLbAn("p1", "p1.an")          \* a member panel used on its own after / before the assembly
       [] m = "strain"     -> AStrain1("p1") \o AStrain1("p2")
       [] m = "stress"     -> AStrain1("p1") \o <<StR("p1", "F")>> \o AStrain1("p2") \o <<StR("p2", "F")>>
 AssemblyMethods == {"calc_k0", "calc_k0_c", "calc_kG0", "calc_kG0_c", "calc_kM", "calc_kT_c", "calc_fint",
-                    "calc_fext", "get_k0_conn", "get_k0_conn_arg", "uvw", "strain", "stress", "plot"}
+                    "calc_fext", "get_k0_conn", "get_k0_conn_arg", "uvw", "strain", "stress", "plot",
+                    "p1_lb_dense"}
 
 (* ---- StiffPanelBay (stiffpanelbay.py) + stiffeners (stiffener/*.py) --- *)
 BaseReset == StXs("base", <<"model", "alpharad", "r", "lam", "F", "size">>)
@@ -286,6 +304,7 @@ ConeMethods == {"calc_k0", "calc_kT", "calc_fint", "calc_fext", "lb", "static", 
 
 (* ------------------------------ dispatch ------------------------------ *)
 Methods(k) == CASE k \in {"Plate", "CPanel"} -> PanelMethods
+                [] k = "PlateRedef" -> RedefMethods
                 [] k = "KPanel"   -> KPanelMethods       \* the conical model has no kA/cA/strain/non-linear kernels
                 [] k = "Assembly" -> AssemblyMethods
                 [] k \in {"Cyl", "Cone"} -> ConeMethods
@@ -313,11 +332,13 @@ Under(steps, ops) ==      \* attributes under steps whose operation is in ops (s
              sub == IF s[1] \in {"I", "J"} THEN Under(s[3], ops)
                     ELSE IF s[1] = "C" THEN Under(s[5], ops) ELSE {}
          IN here \cup sub \cup Under(Tail(steps), ops)
-StatusOps == {"R", "D", "L", "S", "X", "Z", "I", "J", "C", "A"}
+StatusOps == {"R", "D", "L", "S", "X", "Z", "Y", "V", "I", "J", "C", "A"}
 Reads(k, m)   == Under(Script(k, m), {"R"})
-Derives(k, m) == Under(Script(k, m), {"D", "L", "S", "X", "Z", "C"})
+Derives(k, m) == Under(Script(k, m), {"D", "L", "S", "X", "Z", "Y", "V", "C"})
 Writes(k, m)  == Under(Script(k, m), {"W"})
-MayRead(k, m)  == Under(Script(k, m), {"R", "L", "S", "P", "I", "J", "C", "A"}) \cup Derives(k, m) \cup Writes(k, m)
+(* an attribute read before the call writes it must be consumed (R), probed (L, S, I, J, C, A, V) or peeked (P) *)
+(* by the script; a pure output (W) read before it is written is hidden state the script does not know         *)
+MayRead(k, m)  == Under(Script(k, m), {"R", "L", "S", "P", "I", "J", "C", "A"}) \cup Derives(k, m)
 MayWrite(k, m) == Derives(k, m) \cup Writes(k, m)
 Attrs(k) == UNION {Under(Script(k, m), StatusOps) : m \in Methods(k)}
 Universe(k) == UNION {MayRead(k, m) \cup MayWrite(k, m) : m \in Methods(k)}
@@ -359,6 +380,9 @@ Run(steps, st) ==
               [] op = "S" -> Run(rest, IF st.d[a] = "Unset" THEN [st EXCEPT !.d[a] = "Stale"] ELSE st)
               [] op = "X" -> Run(rest, [st EXCEPT !.d[a] = "Unset"])
               [] op = "Z" -> Run(rest, [st EXCEPT !.d[a] = "Stale"])
+              [] op = "Y" -> Run(rest, IF st.d[a] # "Unset" THEN [st EXCEPT !.d[a] = "Stale"] ELSE st)
+              [] op = "V" -> Run(rest, [st EXCEPT !.d[a] = IF \A x \in s[3] : st.d[x] = "Def" THEN "Def" ELSE "Stale"])
+              [] op = "E" -> Run(rest, [st EXCEPT !.e = @ \cup {a[2]}])
               [] op \in {"W", "P"} -> Run(rest, st)
               [] op = "B" -> IF st.skip THEN Run(rest, st) ELSE [st EXCEPT !.out = "fails", !.attr = a]
               [] op = "A" -> IF ~st.skip /\ (st.d[a] = "Unset") # (st.d[s[3]] = "Unset")
@@ -376,15 +400,15 @@ Run(steps, st) ==
                                              !.reuse = IF st.k[a] # s[4] THEN @ \cup {a} ELSE @])
 
 NoAttr == <<"", "-">>
-ExecWith(k, m, d, key, skip) ==
-    LET st == Run(Script(k, m), [d |-> d, k |-> key, out |-> "ok", attr |-> NoAttr, taint |-> {}, reuse |-> {},
-                                 skip |-> skip])
+ExecWith(k, m, d, key, e, skip) ==
+    LET st == Run(Script(k, m), [d |-> d, k |-> key, e |-> e, out |-> "ok", attr |-> NoAttr, taint |-> {},
+                                 reuse |-> {}, skip |-> skip])
     IN IF st.out = "ok" /\ (st.taint # {} \/ st.reuse # {}) THEN [st EXCEPT !.out = "wrong"] ELSE st
-Exec(k, m, d, key) == ExecWith(k, m, d, key, FALSE)
+Exec(k, m, d, key, e) == ExecWith(k, m, d, key, e, FALSE)
 (* the same call if its always-broken step / assertion (pseudo attributes) were repaired *)
-ExecRepaired(k, m, d, key) == ExecWith(k, m, d, key, TRUE)
+ExecRepaired(k, m, d, key, e) == ExecWith(k, m, d, key, e, TRUE)
 Pseudo(k, a) == a \notin Attrs(k)
-Result(k, m) == <<k, m>>      \* the value an "ok" call returns is a function of the definition only
+Result(k, m, e) == <<k, m, e>>  \* the value an "ok" call returns is a function of the (re)definition only
 
 (* ----------------------------- deviations ----------------------------- *)
 (* failures: dev, class, method, attribute name, exception raised today   *)
@@ -436,7 +460,9 @@ FailTable == {
 WrongTable == {
   [dev |-> "KF_C20_Assembly_get_k0_conn_lam", cls |-> "Assembly", stale |-> {"lam", "k0_conn"}, reuse |-> {}],
   [dev |-> "KF_C20_Assembly_get_k0_conn_conn", cls |-> "Assembly", stale |-> {}, reuse |-> {"k0_conn"}],
-  [dev |-> "KF_C20_ConeCyl_uvw_alpharad", cls |-> "ConeCyl", stale |-> {"alpharad"}, reuse |-> {}] }
+  [dev |-> "KF_C20_ConeCyl_uvw_alpharad", cls |-> "ConeCyl", stale |-> {"alpharad"}, reuse |-> {}],
+  [dev |-> "KF_C20_Panel_redefinition_plyts", cls |-> "Panel", stale |-> {"plyts", "laminaprops", "lam", "F"},
+   reuse |-> {}] }
 AllDeviations == {f.dev : f \in FailTable} \cup {w.dev : w \in WrongTable}
 
 FailEntries(k, m, a, devs) == {f \in FailTable : f.dev \in devs /\ f.cls = Class(k) /\ f.m \in {m, "*"} /\ f.a = a[2]}
@@ -456,17 +482,20 @@ NoCall == [m |-> "-", out |-> "ok", attr |-> NoAttr, taint |-> {}, reuse |-> {}]
 Init == /\ kind \in Kinds
         /\ derived = InitDerived(kind)
         /\ ckey = InitKey(kind)
+        /\ defn = {}
         /\ n = 0
         /\ last = NoCall
-Call(m) == LET st == Exec(kind, m, derived, ckey)
+Call(m) == LET st == Exec(kind, m, derived, ckey, defn)
            IN /\ derived' = st.d
               /\ ckey' = st.k
+              /\ defn' = st.e
               /\ last' = [m |-> m, out |-> st.out, attr |-> st.attr, taint |-> st.taint, reuse |-> st.reuse]
               /\ UNCHANGED kind
 (* trace validation: the observed call succeeded although a pseudo step says it cannot - follow the repaired script *)
-CallRepaired(m) == LET st == ExecRepaired(kind, m, derived, ckey)
+CallRepaired(m) == LET st == ExecRepaired(kind, m, derived, ckey, defn)
                    IN /\ derived' = st.d
                       /\ ckey' = st.k
+                      /\ defn' = st.e
                       /\ last' = [m |-> m, out |-> st.out, attr |-> st.attr, taint |-> st.taint, reuse |-> st.reuse]
                       /\ UNCHANGED kind
 Next == /\ n < MaxLen
@@ -492,8 +521,8 @@ CacheCoherent ==
 (* asking twice: the second call leaves the state unchanged and has the same outcome class *)
 Idempotent ==
     \A m \in Methods(kind) :
-        LET s1 == Exec(kind, m, derived, ckey)
-            s2 == Exec(kind, m, s1.d, s1.k)
+        LET s1 == Exec(kind, m, derived, ckey, defn)
+            s2 == Exec(kind, m, s1.d, s1.k, s1.e)
         IN \/ s2.d = s1.d /\ s2.k = s1.k /\ s2.out = s1.out /\ s2.attr = s1.attr
            \/ s2.out # "ok" /\ Explains(kind, m, s2, Deviations) # {}      \* a listed finding breaks the repetition
 (* every failure signature of the tables is consistent with the scripts: the attribute is read *)
